@@ -48,6 +48,13 @@ structure State where
   userRules : List Bytes := []
   filtering : Bool := true
   protection : Bool := true
+  /-- While a rebuild of the engines cannot complete (a list file that cannot be
+  opened, or a rebuild still in progress), the rules of the last completed
+  rebuild stay in force: `(block lines, allow lines)` at that moment. -/
+  held : Option (List Bytes × List Bytes) := none
+  /-- the unfinished rebuild is one stalled on a pipe (any further configuration call
+  in the harness first lets it finish) -/
+  stalled : Bool := false
   deriving Repr
 
 def State.source (s : State) (i : Nat) : List Bytes := ruleLines (s.sources.getD i [])
@@ -117,6 +124,25 @@ def State.blockLines (s : State) : List Bytes :=
 
 def State.allowLines (s : State) : List Bytes :=
   (s.allow.filter (·.enabled)).flatMap (·.file)
+
+/-- the lines the engines must be working with: a failed or unfinished rebuild
+leaves the previous rules in force -/
+def State.engBlock (s : State) : List Bytes :=
+  match s.held with | some (b, _) => b | none => s.blockLines
+
+def State.engAllow (s : State) : List Bytes :=
+  match s.held with | some (_, a) => a | none => s.allowLines
+
+/-- a lifecycle step on the stored file of the list with source `i` (made
+unopenable, or turned into a pipe that stalls the rebuild): applicable when that
+list exists and is enabled; from then on the rules in force are frozen -/
+def freeze (s : State) (i : Nat) : Bool × State :=
+  if (s.block ++ s.allow).any (fun en => en.src == i && en.enabled) && s.held.isNone then
+    (true, { s with held := some (s.blockLines, s.allowLines) })
+  else (false, s)
+
+/-- the file is restored and a rebuild completes -/
+def thaw (s : State) : State := { s with held := none, stalled := false }
 
 /-- the `Conf` a query of the sequence runs under (fixed apart from the two switches) -/
 def State.conf (s : State) : Conf :=
